@@ -689,8 +689,8 @@ def run_table(case, meta=True):
     for q, o in zip(case["queries"], res["outs"]):
         if query_valid(q) and isinstance(o, str):
             res["meta"].append(("valid query raised " + o, q))
-    if lm2 is not None:
-        # the reloaded instance (which may have held other tables before, see reload) answers every query alike
+    if lm2 is not None and case.get("detour", (len(case["dicts"]) + len(case["dicts"][-1])) % 2 == 1):
+        # the reloaded instance that has held other tables before (see reload) answers every query alike
         for q, o in zip(case["queries"], res["outs"]):
             o2 = run_query(lm2, q)
             if o2 != o and not (isinstance(o2, str) and isinstance(o, str)):
@@ -1224,7 +1224,15 @@ def run(chk, cases=None):
             owners.append((ci, 0))
             chk.note_case(case, True, stream)
             chk.count("arpa=" + ("raises" if isinstance(out, str) else "ok") + ("/base-e" if case["base_e"] else "/base-10" if case["base_e"] is False else "/base-default"))
-    flags = coq_eval_bools(chk.workdir, IMPORTS, terms, shard=100)
+    # deal the terms over the shards by size: the boundary tables (V ~ 256) are adjacent in the case list and used to sit
+    # in one or two shards that everything else waited for
+    nsh = max(1, -(-len(terms) // 100))
+    by_size = sorted(range(len(terms)), key=lambda i: -len(terms[i]))
+    order = [i for j in range(nsh) for i in by_size[j::nsh]]
+    pflags = coq_eval_bools(chk.workdir, IMPORTS, [terms[i] for i in order], shard=100)
+    flags = [True] * len(terms)
+    for i, ok in zip(order, pflags):
+        flags[i] = ok
     by_case = {}
     for (ci, k), ok in zip(owners, flags):
         by_case.setdefault(ci, {})[k] = ok
